@@ -1,6 +1,9 @@
 package dt
 
-import "context"
+import (
+	"context"
+	"sync"
+)
 
 func VC13_Set() {
 	s := &Set[int]{}
@@ -32,6 +35,12 @@ func VC13_Set() {
 		func() { s.Extend(other) },
 		func() { _ = s.Equal(other) },
 		func() { s.SortQuick(func(a, b int) bool { return a < b }) },
+		// documented as safe to call more than once: the set keeps its mutex
+		func() { s.Synchronize(); s.Add(4) },
+		func() {
+			defer func() { _ = recover() }() // refused (different mutex): panics by design
+			s.WithLock(&sync.Mutex{})
+		},
 	}
 	a := vf.Choice("a", len(ops))
 	b := vf.Choice("b", len(ops))
